@@ -691,10 +691,14 @@ func CheckFixedPointLiteral(
 			return false
 		}
 
+		// The type's fractional bounds are given at the type's scale,
+		// so the literal's fractional part must be compared at that scale too
+		fractional := fixedpoint.ScaleFractional(expression.Fractional, expression.Scale, scale)
+
 		if !fixedpoint.CheckRange(
 			expression.Negative,
 			expression.UnsignedInteger,
-			expression.Fractional,
+			fractional,
 			minInt,
 			minFractional,
 			maxInt,
